@@ -299,7 +299,7 @@ pub fn replay_c11(args: &[String]) {
 // C12: merging holes
 // =====================================================================================
 #[derive(Clone)]
-struct HoleSpec { c: P2, rad: f64, fac: Vec<f64>, phase: f64, ccw: bool, start: usize }
+struct HoleSpec { c: P2, rad: f64, fac: Vec<f64>, phase: f64, ccw: bool, start: usize, explicit: Option<Vec<P2>> }
 
 /// what a merge case was built from, for the operation queries that follow it
 struct C12Built { pg: Polygon3D, merged: Option<Loop3D>, closed: Option<Loop3D> }
@@ -544,7 +544,32 @@ fn c12_ops(sink: &mut Sink, x: &mut Rng, note: &str, fr: &Frame, poly: &[P2], ou
         ops_emit(sink, "getters+remove+index", note, &loops, &labels, None, &qs);
     }
 }
-fn spec_pts(h: &HoleSpec) -> Vec<P2> { ngon(h.c, h.rad, &h.fac, h.phase, h.ccw, h.start) }
+fn spec_pts(h: &HoleSpec) -> Vec<P2> {
+    match &h.explicit {
+        Some(p) => { let q: Vec<P2> = if area2(p) > 0.0 { p.to_vec() } else { reversed(p) }; let q = if h.ccw { q } else { reversed(&q) }; rotate_start(&q, h.start % q.len()) }
+        None => ngon(h.c, h.rad, &h.fac, h.phase, h.ccw, h.start),
+    }
+}
+/// an arrowhead hole whose NOTCH (its reflex vertex) faces a convex corner E of the outline and is the hole vertex nearest
+/// to it: the bridge lands on a reflex vertex of the hole (seeded change C12-m4: walk direction taken from the local turn)
+fn arrow_hole(r: &mut Rng, poly: &[P2]) -> Option<(P2, f64, Vec<P2>)> {
+    let n = poly.len(); let sg = area2(poly).signum();
+    for _ in 0..12 {
+        let i = r.below(n as u64) as usize;
+        let (a, e, b) = (poly[(i + n - 1) % n], poly[i], poly[(i + 1) % n]);
+        if ((e.0 - a.0) * (b.1 - e.1) - (e.1 - a.1) * (b.0 - e.0)) * sg <= 0.0 { continue; }   // convex corners only
+        let (la, lb) = (d2(a, e), d2(b, e));
+        let ua = ((a.0 - e.0) / la, (a.1 - e.1) / la); let ub = ((b.0 - e.0) / lb, (b.1 - e.1) / lb);
+        let (sx, sy) = (ua.0 + ub.0, ua.1 + ub.1); let sl = (sx * sx + sy * sy).sqrt();
+        if sl < 0.5 { continue; }                                                                   // sharper than ~150 degrees: skip
+        let u = (sx / sl, sy / sl); let v = (-u.1, u.0);
+        let rh = la.min(lb) * r.range(0.06, 0.12); let dd = rh * r.range(1.6, 2.2);
+        let at = |x: f64, y: f64| (e.0 + x * u.0 + y * v.0, e.1 + x * u.1 + y * v.1);
+        let pts = vec![at(dd, 0.0), at(dd - 0.2 * rh, -rh), at(dd + 0.8 * rh, 0.0), at(dd - 0.2 * rh, rh)];
+        if pts.iter().all(|p| inside2(poly, *p) && dist_to_outline(poly, *p) > 0.25 * rh) { return Some((at(dd + 0.3 * rh, 0.0), 1.1 * rh, pts)); }
+    }
+    None
+}
 
 pub fn run_c12(seed: u64, n: usize, out: &str, with_ops: bool) {
     let mut r = Rng::new(seed ^ 0xC12);
@@ -575,9 +600,18 @@ pub fn run_c12(seed: u64, n: usize, out: &str, with_ops: bool) {
         for _ in 0..nh {
             let k = 3 + r.below(6) as usize;
             let rad = scale * r.range(0.04, 0.11);
+            if r.chance(0.15) {
+                if let Some((c, rad, pts)) = arrow_hole(&mut r, &poly) {
+                    if !occ.iter().any(|(o, ro)| d2(*o, c) < rad + ro + 0.06 * scale) {
+                        occ.push((c, rad));
+                        specs.push(HoleSpec { c, rad, fac: vec![1.0; 4], phase: 0.0, ccw: r.chance(0.5), start: r.below(4) as usize, explicit: Some(pts) });
+                        continue;
+                    }
+                }
+            }
             if let Some(c) = place_inside(&mut r, &poly, &occ, rad * 1.3 + 0.04 * scale, 0.06 * scale) {
                 occ.push((c, rad));
-                specs.push(HoleSpec { c, rad, fac: rand_fac(&mut r, k), phase: r.range(0.0, 6.28), ccw: r.chance(0.5), start: r.below(k as u64) as usize });
+                specs.push(HoleSpec { c, rad, fac: rand_fac(&mut r, k), phase: r.range(0.0, 6.28), ccw: r.chance(0.5), start: r.below(k as u64) as usize, explicit: None });
             }
         }
         if specs.len() != nh { continue; }
